@@ -15,7 +15,8 @@ fn windows_report_aligned_intervals_once() {
     let mut bad = 0;
     for seed in 1..=seeds {
         let mut r = Rng(seed.wrapping_mul(0x9E3779B97F4A7C15) | 1);
-        let slide = 1 + r.below(5);
+        let scale: usize = std::env::var("PROBE_SCALE").ok().and_then(|v| v.parse().ok()).unwrap_or(1);
+        let slide = (1 + r.below(5)) * scale;
         let width = if r.below(4) == 0 { 1 + r.below(slide) } else { slide * (1 + r.below(3)) + r.below(slide) };
         let dense = r.below(3) != 0; // gaps at most one slide
         let mut report = Report::new();
@@ -25,7 +26,8 @@ fn windows_report_aligned_intervals_once() {
         let now = Arc::new(Mutex::new(0usize));
         let (g2, n2) = (got.clone(), now.clone());
         w.register_callback(Box::new(move |c| { let items: BTreeSet<(String, usize)> = c.iter_with_timestamps().map(|(i, t)| (i.clone(), t)).collect(); g2.lock().unwrap().push((*n2.lock().unwrap(), items)); }));
-        let mut ts = r.below(4);
+        let base: usize = std::env::var("PROBE_BASE").ok().and_then(|v| v.parse().ok()).unwrap_or(0);
+        let mut ts = base + r.below(4);
         let mut stream: Vec<(String, usize)> = Vec::new();
         for i in 0..12 + r.below(20) {
             let k = 1 + r.below(2); // several items may share a timestamp
@@ -56,7 +58,7 @@ fn windows_report_aligned_intervals_once() {
             loop {
                 let want: BTreeSet<(String, usize)> = arrived.iter().filter(|(_, t)| *t + width >= c && *t < c).map(|x| (*x).clone()).collect();
                 if want == *content && (c > 0) { found = Some(c); break; }
-                if c < slide { break; }
+                if c < slide || c + 8 * slide + 2 * width + 8 < *trigger { break; }
                 c -= slide;
             }
             match found {
